@@ -13,6 +13,7 @@ import (
 	"strconv"
 	"sync"
 	"sync/atomic"
+	"time"
 )
 
 // FastCGI record types (FastCGI 1.0 specification, section 8).
@@ -61,6 +62,8 @@ type script struct {
 	// Seg > 0: the reply bytes are written to the socket in pieces of Seg
 	// bytes (exercises partial reads in the gateway); 0 = one write.
 	Seg int
+	// ThinkMs: pause between the end of the request and the first reply byte.
+	ThinkMs int
 }
 
 // scripted is the byte-level FastCGI responder of the harness: it records the
@@ -146,6 +149,9 @@ func (s *scripted) serve(c net.Conn) {
 		seg := 0
 		if sc != nil {
 			seg = sc.Seg
+			if sc.ThinkMs > 0 {
+				time.Sleep(time.Duration(sc.ThinkMs) * time.Millisecond)
+			}
 		}
 		if seg <= 0 {
 			if _, err := c.Write(out); err != nil {
